@@ -78,6 +78,12 @@ def gen_c16(tier, rng):
         yield ('H1-id-len', 's9_hash1 %s %s' % (hx(idb), hid), None)
         if ln % 7 == 0:
             yield ('H2', 's9_hash2 %s %s' % (hx(idb), hx(rb(rng, 384))), None)
+    # H1 / extraction for a long identity and then SHORTER ones on one thread (a reused scratch buffer must not leak its tail)
+    long_id, mid_id, short_id = rb(rng, 40), rb(rng, 11), b'Bob'
+    yield ('H1-long-then-shorter-history', 'seq s9_hash1 %s 01 ; %s 01 ; %s 01 ; %s 03 ; %s 01' % (hx(long_id), hx(mid_id), hx(short_id), hx(long_id[:5]), hx(short_id)), None)
+    k_ = rs(rng)
+    yield ('extract-long-then-shorter-history', 'seq s9_extract sign %s %s ; sign %s %s ; enc %s %s ; exch %s %s' % (
+        H(k_), hx(long_id), H(k_), hx(b'Alice'), H(k_), hx(short_id), H(k_), hx(b'Al')), None)
     # extraction: Annex values
     for d in sv('sm9sig.full'):
         yield ('std-vector-extract', 's9_extract sign %s %s' % (d['ks'], d['id']), 'OK ' + d['ds'])
@@ -138,6 +144,18 @@ def gen_c13(tier, rng):
     for a, b in pairs[: 1500 if tier == 'thorough' else 250]:
         op = rng.choice(['n_add', 'n_sub', 'n_mul', 's9fp mul', 's9fp add', 's9fp sub', 's9u256 add', 's9u256 sub', 's9u256 mul', 's9u256 cmp'])
         yield ('modN/Fp-boundary', '%s %s %s' % (op, H(a), H(b)), None)
+    # sums that land exactly on / next to the modulus, differences that land on / next to zero (the conditional-subtraction boundary)
+    for M_, addop, subop in ((N, 'n_add', 'n_sub'), (P, 's9fp add', 's9fp sub')):
+        for a in [1, 2, 3, M_ - 1, M_ - 2, (M_ + 1) // 2, M_ // 2, 1 << 255, (1 << 64) - 1, 1 << 64, 1 << 128, 1 << 192] + [rng.randrange(1, M_) for _ in range(6 if tier == 'thorough' else 2)]:
+            if not (0 < a < M_):
+                continue
+            for dlt in (-1, 0, 1):
+                b = M_ - a + dlt
+                if 0 <= b < M_:
+                    yield ('sum-hits-modulus%+d' % dlt, '%s %s %s' % (addop, H(a), H(b)), None)
+                b2 = a + dlt
+                if 0 <= b2 < M_:
+                    yield ('difference-hits-zero%+d' % dlt, '%s %s %s' % (subop, H(a), H(b2)), None)
     for a in vals[:: 1 if tier == 'thorough' else 3]:
         for op in ('neg', 'dbl', 'tri', 'div2', 'sqr', 'to_mont', 'from_mont'):
             yield ('Fp-unary', 's9fp %s %s' % (op, H(a)), None)
@@ -175,7 +193,9 @@ def gen_c13(tier, rng):
         B = rng.choice(pts)
         cases = [('add-generic', A, B, z1, z2), ('add-equal-same-Z', A, A, z1, z1), ('add-equal-different-Z', A, A, z1, z2),
                  ('add-opposite', A, S.g1_neg(A), z1, z2), ('add-inf-left', None, A, 1, z2), ('add-inf-right', A, None, z1, 1),
-                 ('add-inf-inf', None, None, 1, 1), ('add-affine', A, B, 1, 1)]
+                 ('add-inf-inf', None, None, 1, 1), ('add-affine', A, B, 1, 1),
+                 ('add-equal-rhs-affine', A, A, z1, 1), ('add-equal-lhs-affine', A, A, 1, z2), ('add-equal-both-affine', A, A, 1, 1),
+                 ('add-opposite-rhs-affine', A, S.g1_neg(A), z1, 1), ('add-generic-rhs-affine', A, B, z1, 1), ('add-generic-lhs-affine', A, B, 1, z2)]
         for label, X, Y, za, zb in cases:
             yield ('g1-' + label, 'g1 add %s %s' % (S.g1_jac(X, za), S.g1_jac(Y, zb)), None)
             yield ('g1-sub-' + label, 'g1 sub %s %s' % (S.g1_jac(X, za), S.g1_jac(Y, zb)), None)
@@ -223,12 +243,14 @@ def gen_c13(tier, rng):
         one = (1, 0)
         cases = [('add-generic', A, B, z1, z2), ('add-mixed-affine-rhs', A, B, z1, one), ('add-equal-different-Z', A, A, z1, z2),
                  ('add-equal-same-Z', A, A, z1, z1), ('add-opposite', A, S.g2_neg(A), z1, z2), ('add-inf-left', None, A, one, z2),
-                 ('add-inf-right', A, None, z1, one), ('add-affine', A, B, one, one)]
+                 ('add-inf-right', A, None, z1, one), ('add-affine', A, B, one, one),
+                 ('add-equal-rhs-affine', A, A, z1, one), ('add-equal-lhs-affine', A, A, one, z2), ('add-equal-both-affine', A, A, one, one),
+                 ('add-opposite-rhs-affine', A, S.g2_neg(A), z1, one), ('add-generic-lhs-affine', A, B, one, z2)]
         for label, X, Y, za, zb in cases:
             yield ('g2-' + label, 'g2 add %s %s' % (S.g2_jac(X, za), S.g2_jac(Y, zb)), None)
             yield ('g2-full-' + label, 'g2 addfull %s %s' % (S.g2_jac(X, za), S.g2_jac(Y, zb)), None)
             yield ('g2-sub-' + label, 'g2 sub %s %s' % (S.g2_jac(X, za), S.g2_jac(Y, zb)), None)
-            if X is not None and Y is not None and label != 'add-opposite':   # P vs -P is the open finding D6: only through the `negate` form
+            if X is not None and Y is not None and not label.startswith('add-opposite'):   # P vs -P is the open finding D6: only through the `negate` form
                 yield ('g2-eq-' + label, 'g2eq %s %s' % (S.g2_jac(X, za), S.g2_jac(Y, zb)), None)
         yield ('g2-dbl', 'g2 dbl %s' % S.g2_jac(A, z1), None)
         yield ('g2-neg', 'g2 neg %s' % S.g2_jac(A, z1), None)
@@ -240,6 +262,8 @@ def gen_c13(tier, rng):
         yield ('g2-eq-shared-y', 'g2eq %s %s sharey' % (S.g2_jac(A, z1), S.g2_jac((S.f2scal(w_, A[0]), A[1]), z2)), None)
         yield ('g2-eq-shared-nothing', 'g2eq %s %s' % (S.g2_jac(A, z1), S.g2_jac((S.f2scal(w_, A[0]), S.f2neg(A[1])), z2)), None)
         yield ('g2-raw', 'g2_raw add %s %s' % (S.g2_jac(A, z1), S.g2_jac(B, z2)), None)
+    for op_ in ('dbl', 'neg', 'affine', 'bytes', 'oncurve'):
+        yield ('g1-infinity-unary', 'g1 %s %s' % (op_, S.g1_jac(None, 1)), None)
     for k in [0, 1, 2, 3, N - 1, N, N + 1, rng.getrandbits(256)]:
         yield ('g2-gmul', 'g2 gmul %s' % H(k), None)
 
@@ -334,6 +358,10 @@ def gen_c10(tier, rng):
     ke = rs(rng)
     idb = hx(b'Bob')
     lens = range(0, 256) if tier == 'thorough' else [0, 1, 2, 31, 32, 33, 64, 223, 224, 254, 255]
+    for ln in (1, 20):
+        m_ = rb(rng, ln)
+        yield ('affine-Ppub', 's9_enc aff:%s %s %s %s' % (H(ke), idb, hx(m_), good_r(rng)), None)
+        yield ('affine-Ppub-rt', 's9_tamper aff:%s %s %s %s none 0' % (H(ke), idb, hx(m_), good_r(rng)), 'OK ' + hx(m_))
     for ln in lens:
         msg = rb(rng, ln)
         yield ('enc-len', 's9_enc %s %s %s %s' % (H(ke), idb, hx(msg) or '-', good_r(rng)), None)
@@ -350,6 +378,14 @@ def gen_c10(tier, rng):
             yield ('bit-flip', base + ' flip %d' % bit, None)
         for ln in (range(0, total) if tier == 'thorough' else [0, 1, 64, 65, 96, 97, total - 1]):
             yield ('truncation', base + ' trunc %d' % ln, None)
+        # two (or all) bytes of C3 / of C2 altered with the SAME mask (folds to zero under XOR)
+        for _ in range(6 if tier == 'thorough' else 2):
+            i_, j_ = rng.sample(range(32), 2)
+            yield ('c3-two-bytes-same-mask', base + ' xor %d,%d:%02x' % (65 + i_, 65 + j_, rng.randrange(1, 256)), None)
+        yield ('c3-all-bytes-same-mask', base + ' xor %s:ff' % ','.join(str(65 + i_) for i_ in range(32)), None)
+        if mlen >= 2:
+            i_, j_ = rng.sample(range(mlen), 2)
+            yield ('c2-two-bytes-same-mask', base + ' xor %d,%d:%02x' % (97 + i_, 97 + j_, rng.randrange(1, 256)), None)
         Q = S.g1_mul(rs(rng), S.P1)
         yield ('c1-other-point', base + ' c1 %s' % S.g1_bytes(Q), None)
         yield ('c1-off-curve', base + ' c1 %s' % S.g1_bytes((Q[0], (Q[1] + 1) % P)), None)
@@ -384,6 +420,9 @@ def gen_c10(tier, rng):
                 m_ = rb(rng, 9)
                 yield ('crafted-master ' + name.split(' ')[0], 's9_tamper %s %s %s %s none 0' % (H(k), hx(idb_), hx(m_), good_r(rng)), 'OK ' + hx(m_))
                 yield ('crafted-master-enc ' + name.split(' ')[0], 's9_enc %s %s %s %s' % (H(k), hx(idb_), hx(m_), good_r(rng)), None)
+                # the same with the master public key held in AFFINE form (as after decoding it from octets): mixed-coordinate paths
+                yield ('crafted-master-affine-Ppub ' + name.split(' ')[0], 's9_tamper aff:%s %s %s %s none 0' % (H(k), hx(idb_), hx(m_), good_r(rng)), 'OK ' + hx(m_))
+                yield ('crafted-master-affine-Ppub-enc ' + name.split(' ')[0], 's9_enc aff:%s %s %s %s' % (H(k), hx(idb_), hx(m_), good_r(rng)), None)
     # 1-byte messages: K1 = 0 with probability 2^-8 per r -> the retry branch (many candidates, some rejected)
     for _ in range(2 if tier == 'thorough' else 1):
         yield ('retry-K1-zero-search', 's9_enc %s %s 5a %s' % (H(ke), idb, ','.join(good_r(rng) for _ in range(40 if tier != 'thorough' else 300))), None)
@@ -406,6 +445,12 @@ def gen_c17(tier, rng):
         for name, k, ok in crafted_masters(rng, who, 2):
             if ok:
                 yield ('crafted-master ' + name.split(' ')[0], 's9_exch %s %s %s 16 %s %s -' % (H(k), hx(b'Alice'), hx(b'Bob'), good_r(rng), good_r(rng)), None)
+    # the master public key held in AFFINE form (as after decoding it from octets): mixed-coordinate paths of Q = [H1]P1 + Ppub-e
+    yield ('affine-Ppub', 's9_exch aff:%s %s %s 16 %s %s -' % (H(rs(rng)), hx(b'Alice'), hx(b'Bob'), good_r(rng), good_r(rng)), None)
+    for who in (b'Alice', b'Bob'):
+        for name, k, ok in crafted_masters(rng, who, 2)[:3]:
+            if ok:
+                yield ('crafted-master-affine-Ppub ' + name.split(' ')[0], 's9_exch aff:%s %s %s 16 %s %s -' % (H(k), hx(b'Alice'), hx(b'Bob'), good_r(rng), good_r(rng)), None)
     zs = zero_limb_scalars(rng)
     for i, r_ in enumerate(zs):
         yield ('r-with-zero-limbs', 's9_exch %s %s %s 16 %s %s -' % (H(rs(rng)), hx(b'Alice'), hx(b'Bob'), r_, zs[(i + 3) % len(zs)]), None)
@@ -425,6 +470,12 @@ def gen_c14_sm9(tier, rng):
         yield ('sm9-out-of-range-candidate', 's9_keygen sign %s,%s' % (b_, g), None)
         yield ('sm9-out-of-range-candidate', 's9_keygen enc %s,%s' % (b_, g), None)
         yield ('sm9-out-of-range-candidate', 's9_exch %s %s %s 16 %s,%s %s -' % (H(ks), hx(b'A'), hx(b'B'), b_, g, good_r(rng)), None)
+    # the second pair of key-generation entry points (free functions generate_*_master_key)
+    for b_ in bad + [H(N - 1)]:
+        yield ('sm9-out-of-range-candidate-fn', 's9_keygen signfn %s,%s' % (b_, good_r(rng)), None)
+        yield ('sm9-out-of-range-candidate-fn', 's9_keygen encfn %s,%s' % (b_, good_r(rng)), None)
+    yield ('sm9-injected-used-fn', 's9_keygen signfn %s' % good_r(rng), None)
+    yield ('sm9-injected-used-fn', 's9_keygen encfn %s' % good_r(rng), None)
     for v in (1, N - 2):
         yield ('sm9-extreme-in-range', 's9_keygen enc %s' % H(v), None)
     for _ in range(20 if tier == 'thorough' else 4):
@@ -452,6 +503,13 @@ def gen_c20_sm9(tier, rng):
             yield (('sm9-hash-to-range-len' if ln >= 40 else 'terminates-sm9-hash-to-range-short'), 'n_from_hash %s' % (hx(data) or '-'), None)
             if ln <= 80:
                 yield ('sm9-kdf-len', 's9_kdf %s %d' % (hx(data), ln), None)
+    # hash-to-range on Ha = q(N-1) + r with small r (the correction rounds after the quotient estimate must terminate)
+    for q_ in (1, 2, 3, 1 << 63, (1 << 64) - 1):
+        for r_ in (0, 1, 2, N - 3, N - 2):
+            ha_ = q_ * (N - 1) + r_
+            if ha_ < (1 << 320):
+                yield ('sm9-hash-to-range-correction-rounds', 'n_from_hash %080x' % ha_, None)
+    yield ('sm9-hash-to-range-correction-rounds', 'n_from_hash %080x' % (N - 1), None)
     # degenerate lengths of the encryption entry points (an empty message must return, not spin in the K1 = 0 retry)
     for m_ in ('-', '00', 'ff' * 255):
         yield ('terminates-sm9-encrypt-degenerate-len', 's9_enc %s %s %s %s' % (H(ke), idb, m_, good_r(rng)), None)
